@@ -185,6 +185,14 @@ func (ef *errflow) returnsOnlyNil(fn *ssa.Function, cand map[*ssa.Function]bool)
 }
 
 func (ef *errflow) valueFromInfallible(v ssa.Value, cand map[*ssa.Function]bool) bool {
+	return ef.valueFromInfallible1(v, cand, map[ssa.Value]bool{})
+}
+
+func (ef *errflow) valueFromInfallible1(v ssa.Value, cand map[*ssa.Function]bool, seen map[ssa.Value]bool) bool {
+	if seen[v] {
+		return true // a loop-carried phi: decided by its other edges
+	}
+	seen[v] = true
 	switch x := v.(type) {
 	case *ssa.Extract:
 		if c, ok := x.Tuple.(*ssa.Call); ok {
@@ -197,7 +205,7 @@ func (ef *errflow) valueFromInfallible(v ssa.Value, cand map[*ssa.Function]bool)
 			if isNilConst(e) {
 				continue
 			}
-			if e == v || !ef.valueFromInfallible(e, cand) {
+			if !ef.valueFromInfallible1(e, cand, seen) {
 				return false
 			}
 		}
